@@ -432,6 +432,13 @@ func init() {
 				}
 				emit(c13GenDefaults(rd, next(), pick(rd, ngs)))
 			}
+			// as many struct-mapped (xstruct) trials again, from a stream of their own: whether a quick run contains the rarer
+			// shapes (a declared PARTIAL default on a member whose own object has no defaults, three levels down) depended on
+			// the seed with 45 trials — C13-r3m1 was caught with seeds 2 and 3 and not with seed 1
+			rx := &Rng{s: r.s ^ 0x7c13d3fa11}
+			for i := 0; i < n/8; i++ {
+				emit(c13GenXStruct(rx, next(), pick(rx, ngs)))
+			}
 		},
 		Run: runRaceTrial,
 	}
